@@ -21,7 +21,7 @@
 
    WHAT IS PROVED
    * (a2) and (c): for ALL accepted histories, no window hypothesis, no hypothesis on the configuration.
-   * (a1) and (b): FALSE of the model without hypotheses, also outside all known windows (theorems C09_refuted, C09_refuted_creation, C09_refuted_nopending):
+   * (a1) and (b): FALSE of the model without hypotheses, also outside all known windows (theorems C09_refuted, C09_refuted_stale_stop, C09_refuted_creation, C09_refuted_nopending):
      the model lets a stop execution write Terminating at any time after its check (also a stop caused by a
      fatal readiness probe, which raises no window flag) and does not tie instance creation / the initial
      Pending write to a spawning context.  They are proved for the histories that (1) stay out of the
@@ -145,6 +145,30 @@ Proof.
   exists s. repeat split; vm_compute; reflexivity.
 Qed.
 Print Assumptions C09_refuted_nopending.
+
+(* a stop execution keeps the instance it looked up: the old instance finishes, a successor of the same name
+   is started and reports Running, the stale stop reads the SHARED status, writes Terminating over it and the
+   successor launches under Terminating.  Only external stops, orderly creation, no window flag. *)
+Definition stale_evs : list (tid * event) :=
+ [(0, EApiBegin OpRun); (0, ENewInst 1 1); (0, EState 1 SPending); (0, ERegAdd 1 1); (0, ESpawn 1 1); (0, ERunSpawned);
+  (1, EBegin 1); (1, ERunChecked false); (1, EStarted); (1, EState 1 SRunning); (1, ELaunch true);
+  (2, EApiBegin (OpStop 1)); (2, ERegGet 1 (Some 1)); (2, EStopChecked 1 (Some 1));
+  (9, ECmdExit 1 0%Z); (1, EWaitReturn 0%Z); (1, EExitCode 0%Z); (1, ERestartDecision false);
+  (1, EProcEnd 1 SCompleted); (1, EState 1 SCompleted); (1, EProcEnded 1 SCompleted); (1, ERunReturned 0%Z);
+  (1, EDoneAdd 1); (1, EInstDone); (1, EInstExit); (1, ERegDel 1); (1, EInstGone); (0, ERunReturn 0%Z); (0, EApiReturn true);
+  (3, EApiBegin (OpStart 1)); (3, ERegGet 1 None); (3, EStartChecked 1 false); (3, ENewInst 2 1); (3, EState 2 SPending);
+  (3, ERegAdd 2 1); (3, ESpawn 2 1); (3, EApiReturn true);
+  (4, EBegin 2); (4, ERunChecked false); (4, EStarted); (4, EState 2 SRunning);
+  (2, ENoRestart 1); (2, EStopEnter 1 true); (2, EStopRunning 1); (2, EState 1 STerminating);
+  (4, ELaunch true)].
+Theorem C09_refuted_stale_stop : exists cs ord evs s,
+  accept (init cs ord) evs = Some s /\ any_window (final_obs cs evs) = false /\ holds_C09 cs evs = false.
+Proof.
+  exists [(1, conf_plain)], false, stale_evs.
+  destruct (accept (init [(1, conf_plain)] false) stale_evs) as [s|] eqn:E; [|vm_compute in E; discriminate].
+  exists s. repeat split; vm_compute; reflexivity.
+Qed.
+Print Assumptions C09_refuted_stale_stop.
 
 (* ---- non-vacuity: a 45-event accepted history (launch, failure, back-off, relaunch, API stop of the running
    command, completion, Run returns) that satisfies every hypothesis of C09_main_partial ------------------- *)
